@@ -325,6 +325,72 @@ func Analyze(o *Obs, p *pgen.Program) (*pgen.Model, *Report) {
 		}
 	}
 
+	// Executed forks that no expected invocation accounts for still belong to a
+	// stage call: whatever every invocation of that call depends on, this job
+	// depended on too.
+	for _, f := range o.Forks {
+		if f.Claimed != 0 {
+			continue
+		}
+		type depk struct {
+			d    *pgen.StageInvocation
+			kind string
+		}
+		var common map[depk]bool
+		for _, inv := range m.Invs {
+			if inv.Path != f.CallPath {
+				continue
+			}
+			mine := map[depk]bool{}
+			for i, d := range inv.Deps {
+				mine[depk{d, inv.DepKinds[i]}] = true
+			}
+			if common == nil {
+				common = mine
+			} else {
+				for k := range common {
+					if !mine[k] {
+						delete(common, k)
+					}
+				}
+			}
+		}
+		cs, cj := firstStart(f)
+		if cj == nil {
+			continue
+		}
+		var keys []depk
+		for k := range common {
+			keys = append(keys, k)
+		}
+		sort.Slice(keys, func(i, j int) bool {
+			if keys[i].d.Path != keys[j].d.Path {
+				return keys[i].d.Path < keys[j].d.Path
+			}
+			if keys[i].d.Context != keys[j].d.Context {
+				return keys[i].d.Context < keys[j].d.Context
+			}
+			return keys[i].kind < keys[j].kind
+		})
+		for _, k := range keys {
+			fp, _ := k.d.Token.(*Fork)
+			if fp == nil {
+				continue
+			}
+			r.DepEdges++
+			r.DepKinds[k.kind]++
+			pe, pj, unfinished := lastEnd(fp)
+			if unfinished != nil {
+				r.add("C02", "start-before-producer-end:"+k.kind,
+					fmt.Sprintf("job %s (a fork no binding evaluation denotes) started although producer job %s (%s dependency of every fork of %s) never recorded completion", cj.ID, unfinished.ID, k.kind, f.CallPath), nil)
+			} else if pj != nil && cs < pe {
+				r.add("C02", "start-before-producer-end:"+k.kind,
+					fmt.Sprintf("job %s (a fork no binding evaluation denotes) started %.1f ms before job %s finished; every fork of %s consumes %s as %s",
+						cj.ID, float64(pe-cs)/1e6, pj.ID, f.CallPath, k.d.Path, k.kind), nil)
+			}
+		}
+	}
+
 	// ---- C04: file liveness as seen by consumers
 	writtenBy := map[string]*vrun.Written{}
 	for i := range o.Events {
